@@ -152,12 +152,18 @@ def run_case(case):
     ref = families.make_ref('p', case['mesh'], case['fields'], layout=case['layout'], geom=case['geom'])
     viol = {}
     fsels = ['0', repr(ref.fields[-1]), 'slice(None, None, None)', repr([0, ref.nf - 1])]
+    names = []
+    for f in ref.fields:
+        if f not in names:
+            names.append(f)
+    if len(names) > 1:
+        fsels += [repr(names[::-1]), repr(names[-1:] + names[:1])]         # name lists that are not in the header's order
     n = 0
     for l in range(ref.nlev):
         for b, (blo, bhi) in enumerate(ref.boxes[l]):
             if any(bhi[d] - blo[d] + 1 < 3 for d in range(3)):
                 continue
-            for fe in (fsels if common.TIER != 'quick' else fsels[(l + b) % 2::2]):
+            for fe in (fsels if common.TIER != 'quick' else fsels[(l + b) % 2::2] + fsels[4:5]):
                 def path(ctx, fe=fe, l=l, b=b):
                     return query(mods, ref, fe, l, b, ctx)
                 results, exhaustive, stats = core.explore(path, max_paths=400)
@@ -238,8 +244,7 @@ def run_case(case):
     for sig, v in viol.items():
         if not common.claim('C19', sig):
             continue
-        d = make_replay(ref, v)
-        status, out = common.run_replay(d)
+        d, status, out = common.replay_portfolio(lambda: make_replay(ref, v))
         v2 = {'signature': sig, 'what': v['what'], 'replay': d}
         if status == 'reproduced':
             res['violations'].append(v2)
@@ -267,7 +272,7 @@ def make_replay(ref, v):
         point = [ref.lo[dd] + (blo[dd] + cell[dd] + 0.5) * ref.dx[l][dd] for dd in range(3)]
         fsel = eval(v['fsel'])
         comps = [fsel] if isinstance(fsel, int) else ([ref.fields.index(fsel)] if isinstance(fsel, str) else
-                 (list(range(ref.nf))[fsel] if isinstance(fsel, slice) else list(fsel)))
+                 (list(range(ref.nf))[fsel] if isinstance(fsel, slice) else [ref.fields.index(f) if isinstance(f, str) else f for f in fsel]))
         case = {'property': 'C19', 'handler': 'c19', 'signature': v['signature'], 'what': v['what'], 'fsel': v['fsel'], 'point': point,
                 'expected': [float(data[l][b][cell + (c,)]) for c in comps], 'prior': v.get('prior')}
     with open(os.path.join(d, 'case.json'), 'w') as f:
